@@ -254,7 +254,7 @@ pub struct Gen {
     pub cost_raw: Vec<u8>,
 }
 
-fn sort_lines(b: &[u8]) -> Vec<u8> {
+pub fn sort_lines(b: &[u8]) -> Vec<u8> {
     let mut lines: Vec<&[u8]> = b.split(|&c| c == b'\n').collect();
     if lines.last().map_or(false, |l| l.is_empty()) {
         lines.pop();
@@ -283,7 +283,7 @@ pub fn generate(m: &mut Model) -> Option<Result<Gen, ()>> {
     })
 }
 
-fn same_files(a: &Gen, b: &Gen) -> bool {
+pub fn same_files(a: &Gen, b: &Gen) -> bool {
     a.lex == b.lex
         && a.matrix == b.matrix
         && a.unk == b.unk
@@ -293,7 +293,7 @@ fn same_files(a: &Gen, b: &Gen) -> bool {
         && a.cost_sorted == b.cost_sorted
 }
 
-fn obs_of(g: &Option<Result<Gen, ()>>) -> String {
+pub fn obs_of(g: &Option<Result<Gen, ()>>) -> String {
     match g {
         None => "panic".to_string(),
         Some(Err(())) => "err".to_string(),
@@ -402,16 +402,20 @@ fn max_diff(a: &Dictionary, b: &Dictionary) -> Option<String> {
 }
 
 fn compile_flags(s: &Setup, g: &Gen) -> Compiled {
+    compile_flags_cd(&s.chardef, g)
+}
+
+fn compile_flags_cd(chardef: &str, g: &Gen) -> Compiled {
     use vibrato::verif::{num_left, num_right};
     let mat = guarded(|| {
-        SystemDictionaryBuilder::from_readers(&g.lex[..], &g.matrix[..], s.chardef.as_bytes(), &g.unk[..]).ok()
+        SystemDictionaryBuilder::from_readers(&g.lex[..], &g.matrix[..], chardef.as_bytes(), &g.unk[..]).ok()
     })
     .flatten();
     let userc = if g.user.is_empty() {
         "na".to_string()
     } else {
         let r = guarded(|| {
-            let d = SystemDictionaryBuilder::from_readers(&g.lex[..], &g.matrix[..], s.chardef.as_bytes(), &g.unk[..]).ok()?;
+            let d = SystemDictionaryBuilder::from_readers(&g.lex[..], &g.matrix[..], chardef.as_bytes(), &g.unk[..]).ok()?;
             d.reset_user_lexicon_from_reader(Some(&g.user[..])).ok()
         })
         .flatten();
@@ -419,14 +423,14 @@ fn compile_flags(s: &Setup, g: &Gen) -> Compiled {
     };
     let raw = guarded(|| {
         SystemDictionaryBuilder::from_readers_with_bigram_info(
-            &g.lex[..], &g.right[..], &g.left[..], &g.cost_raw[..], s.chardef.as_bytes(), &g.unk[..], false,
+            &g.lex[..], &g.right[..], &g.left[..], &g.cost_raw[..], chardef.as_bytes(), &g.unk[..], false,
         )
         .ok()
     })
     .flatten();
     let dual_r = guarded(|| {
         SystemDictionaryBuilder::from_readers_with_bigram_info(
-            &g.lex[..], &g.right[..], &g.left[..], &g.cost_raw[..], s.chardef.as_bytes(), &g.unk[..], true,
+            &g.lex[..], &g.right[..], &g.left[..], &g.cost_raw[..], chardef.as_bytes(), &g.unk[..], true,
         )
         .ok()
     });
@@ -446,17 +450,26 @@ fn compile_flags(s: &Setup, g: &Gen) -> Compiled {
     Compiled { compiles: mat.is_some(), userc, big: raw.is_some(), close, closed, dims }
 }
 
+pub fn trainer_flags(s: &Setup, rt: bool, g: &Option<Result<Gen, ()>>) -> String {
+    flags(s, rt, g)
+}
+
 fn flags(s: &Setup, rt: bool, g: &Option<Result<Gen, ()>>) -> String {
+    flags_core(&s.chardef, s.k, s.slash, rt, g)
+}
+
+/// The harness-side predicates of a `GEN` line; `CHARDEF` is carried so that a replay can recompute them.
+pub fn flags_core(chardef: &str, k: usize, slash: bool, rt: bool, g: &Option<Result<Gen, ()>>) -> String {
     match g {
         Some(Ok(g)) => {
-            let c = compile_flags(s, g);
+            let c = compile_flags_cd(chardef, g);
             format!(
-                "RT={} COMPILES={} USERC={} BIG={} CLOSE={} CLOSED={} DIMS={} K={} ZERO={} SLASH={} EMPTYCLASS={} STAR={}",
-                rt as u8, c.compiles as u8, c.userc, c.big as u8, c.close, c.closed, c.dims, s.k,
-                all_costs_zero(g) as u8, s.slash as u8, empty_class(g) as u8, star_feature(g) as u8
+                "RT={} COMPILES={} USERC={} BIG={} CLOSE={} CLOSED={} DIMS={} K={} ZERO={} SLASH={} EMPTYCLASS={} STAR={} CHARDEF={}",
+                rt as u8, c.compiles as u8, c.userc, c.big as u8, c.close, c.closed, c.dims, k,
+                all_costs_zero(g) as u8, slash as u8, empty_class(g) as u8, star_feature(g) as u8, hex(chardef.as_bytes())
             )
         }
-        _ => format!("RT={} COMPILES=na K={} SLASH={}", rt as u8, s.k, s.slash as u8),
+        _ => format!("RT={} COMPILES=na K={} SLASH={} CHARDEF={}", rt as u8, k, slash as u8, hex(chardef.as_bytes())),
     }
 }
 
